@@ -193,61 +193,7 @@ func siteAttachments(portfolio bool) siteFn {
 		res := e.sb.monitored(e.t, ci, arg, chdir, func() error {
 			return api.ExtractAttachmentsFile(in, arg, ids, conf())
 		})
-		viol := func(class, what string) {
-			cc := ci
-			cc.Names = quoteAll(ci.Names)
-			cc.Detail = what
-			e.t.Violate("site="+site+"/class="+class, fmt.Sprintf("%s[%s]: %s", site, ci.Sub, what), cc)
-		}
-		// ---- oracle (iii)
-		switch {
-		case res.panicVal != nil:
-		case res.err == nil:
-			e.t.Count("attachments_expected", int64(len(expected)))
-			byContent := map[string]int{}
-			for i, a := range expected {
-				byContent[string(a.Data)] = i
-			}
-			seen := map[int]string{}
-			foreign := 0
-			for name, data := range res.files {
-				i, ok := byContent[string(data)]
-				if !ok {
-					foreign++
-					viol("content-mismatch", fmt.Sprintf("file %q (%d bytes) holds the bytes of none of the %d extracted attachments", name, len(data), len(expected)))
-					continue
-				}
-				seen[i] = name
-			}
-			if len(res.files) < len(expected) && foreign == 0 {
-				var lost []string
-				for i, a := range expected {
-					if _, ok := seen[i]; !ok {
-						lost = append(lost, fmt.Sprintf("%q", a.planted()))
-					}
-				}
-				viol("silent-clobber", fmt.Sprintf("success reported, %d attachments but %d files %q: the bytes of %s are nowhere (overwritten by another attachment)",
-					len(expected), len(res.files), sortedKeys(res.files), strings.Join(lost, ", ")))
-			} else if len(res.files) > len(expected) {
-				viol("extra-files", fmt.Sprintf("%d attachments but %d files %q", len(expected), len(res.files), sortedKeys(res.files)))
-			}
-			// the benign attachment, when selected, must sit under exactly its own name
-			for _, a := range expected {
-				if a.F != nil && *a.F == benign && a.UF == nil {
-					if got, ok := res.files[benign]; !ok || !bytes.Equal(got, benignData) {
-						viol("wrong-file-for-name", fmt.Sprintf("attachment %q is not stored under its own name (present=%v): its name holds other bytes", benign, ok))
-					}
-				}
-			}
-		case errors.Is(res.err, api.ErrAttachmentOutputCollision):
-			e.t.Count("collision_errors_observed", 1)
-			if len(res.files) > 0 {
-				viol("collision-after-write", fmt.Sprintf("collision error %q but the output directory holds %q", res.err, sortedKeys(res.files)))
-			}
-			if res.contentWrites > 0 {
-				viol("collision-after-write", fmt.Sprintf("collision error %q after %d content writes into the output directory", res.err, res.contentWrites))
-			}
-		}
+		e.attachmentOracle(site, ci, res, expected, 0, benign, benignData)
 		if strings.HasPrefix(sub, "collision-set") {
 			e.t.Count("collision_sets_planted", 1)
 		}
@@ -260,6 +206,72 @@ func siteAttachments(portfolio bool) siteFn {
 		}
 	}
 	return func(e *env, c int, all enumMode) { run(e, c, all, nil) }
+}
+
+// attachmentOracle is oracle (iii): after a successful call the files in out/ and the expected attachments are in
+// bijection by content (a lost attachment = silent clobber); after the documented collision error out/ is unchanged and
+// no content was written. expected lists every attachment the call has to extract (distinct contents). benign names
+// the attachment whose file name needs no sanitiser ("" = none). maxFiles > len(expected): a selection named some
+// attachment more than once, so up to maxFiles files (copies under fall-back names) are in order.
+func (e *env) attachmentOracle(site string, ci caseInfo, res *result, expected []attSpec, maxFiles int, benign string, benignData []byte) {
+	if maxFiles < len(expected) {
+		maxFiles = len(expected)
+	}
+	viol := func(class, what string) {
+		cc := ci
+		cc.Names = quoteAll(ci.Names)
+		cc.Detail = what
+		e.t.Violate("site="+site+"/class="+class, fmt.Sprintf("%s[%s]: %s", site, ci.Sub, what), cc)
+	}
+	// ---- oracle (iii)
+	switch {
+	case res.panicVal != nil:
+	case res.err == nil:
+		e.t.Count("attachments_expected", int64(len(expected)))
+		byContent := map[string]int{}
+		for i, a := range expected {
+			byContent[string(a.Data)] = i
+		}
+		seen := map[int]string{}
+		foreign := 0
+		for name, data := range res.files {
+			i, ok := byContent[string(data)]
+			if !ok {
+				foreign++
+				viol("content-mismatch", fmt.Sprintf("file %q (%d bytes) holds the bytes of none of the %d extracted attachments", name, len(data), len(expected)))
+				continue
+			}
+			seen[i] = name
+		}
+		if len(seen) < len(expected) && foreign == 0 {
+			var lost []string
+			for i, a := range expected {
+				if _, ok := seen[i]; !ok {
+					lost = append(lost, fmt.Sprintf("%q", a.planted()))
+				}
+			}
+			viol("silent-clobber", fmt.Sprintf("success reported, %d attachments but %d files %q: the bytes of %s are nowhere (overwritten by another attachment)",
+				len(expected), len(res.files), sortedKeys(res.files), strings.Join(lost, ", ")))
+		} else if len(res.files) > maxFiles {
+			viol("extra-files", fmt.Sprintf("%d attachments but %d files %q", len(expected), len(res.files), sortedKeys(res.files)))
+		}
+		// the benign attachment, when selected, must sit under exactly its own name
+		for _, a := range expected {
+			if benign != "" && a.F != nil && *a.F == benign && a.UF == nil {
+				if got, ok := res.files[benign]; !ok || !bytes.Equal(got, benignData) {
+					viol("wrong-file-for-name", fmt.Sprintf("attachment %q is not stored under its own name (present=%v): its name holds other bytes", benign, ok))
+				}
+			}
+		}
+	case errors.Is(res.err, api.ErrAttachmentOutputCollision):
+		e.t.Count("collision_errors_observed", 1)
+		if len(res.files) > 0 {
+			viol("collision-after-write", fmt.Sprintf("collision error %q but the output directory holds %q", res.err, sortedKeys(res.files)))
+		}
+		if res.contentWrites > 0 {
+			viol("collision-after-write", fmt.Sprintf("collision error %q after %d content writes into the output directory", res.err, res.contentWrites))
+		}
+	}
 }
 
 // ------------------------------------------------------------------------------------------------
